@@ -1040,3 +1040,214 @@ Section Book.
       + intros Hio. destruct (H1 i) as (_ & _ & ->); auto.
   Qed.
 End Book.
+
+(* ---- _setBases keeps the push invariant *)
+Lemma PInv_skel s s' : skel_eq s s' -> PInv s -> PInv s'.
+Proof.
+  intros ((L & G) & Ro) (A & R & S0 & C). assert (GE : graph_eq s s') by (split; auto).
+  split; [|split; [|split]].
+  - eapply graph_eq_allPush; eauto.
+  - eapply graph_eq_ranked; eauto.
+  - apply (graph_eq_subs_ok _ _ GE S0).
+  - intros r Hr. rewrite <- Ro, <- (graph_eq_fresh _ _ r GE). apply C. rewrite L; auto.
+Qed.
+
+Definition ro_coherent_except (s : sys) (r : nat) : Prop :=
+  forall x, x < length s -> x <> r -> rs_ro (get s x) = fresh_ro s x.
+
+Lemma s2_fields sb s r bs i : only_subs s sb -> r < length s ->
+  rs_bases (get (upd sb r (setb bs)) i) = (if Nat.eqb i r then bs else rs_bases (get s i)) /\
+  rs_subs (get (upd sb r (setb bs)) i) = rs_subs (get sb i) /\
+  rs_flavour (get (upd sb r (setb bs)) i) = rs_flavour (get s i) /\
+  rs_ro (get (upd sb r (setb bs)) i) = rs_ro (get s i).
+Proof.
+  intros (L & H) Lr. rewrite get_upd, L. destruct (Nat.eqb i r) eqn:E.
+  - apply Nat.eqb_eq in E. subst. replace (Nat.ltb r (length s)) with true by (symmetry; apply Nat.ltb_lt; auto).
+    cbn [andb]. destruct (H r) as (l & ->). cbn. auto.
+  - cbn [andb]. destruct (H i) as (l & ->). cbn. auto.
+Qed.
+
+Lemma Reach_avoid B B' r : (forall y, y <> r -> B y = B' y) ->
+  forall x, ~ Reach B x r -> agree_from B B' x.
+Proof.
+  intros E x N y Hy. apply E. intros ->. auto.
+Qed.
+
+Lemma set_bases_push s r bs :
+  allPush s -> ranked (Bs s) -> subs_ok s -> ro_coherent_except s r ->
+  r < length s -> (forall b, In b bs -> b < r) ->
+  PInv (set_bases s r bs) /\ length (set_bases s r bs) = length s.
+Proof.
+  intros A R S0 C Lr Hbs. rewrite set_bases_push_eq by apply A. cbv zeta.
+  destruct (book_spec (rs_bases (get s r)) bs r s) as (O & B2 & B3 & B4).
+  set (sb := book (rs_bases (get s r)) s r bs) in *.
+  set (s2 := upd sb r (setb bs)).
+  assert (F : forall i, rs_bases (get s2 i) = (if Nat.eqb i r then bs else rs_bases (get s i)) /\
+                        rs_subs (get s2 i) = rs_subs (get sb i) /\
+                        rs_flavour (get s2 i) = rs_flavour (get s i) /\
+                        rs_ro (get s2 i) = rs_ro (get s i)) by (intros; apply s2_fields; auto).
+  assert (L2 : length s2 = length s) by (unfold s2; rewrite upd_length; apply O).
+  assert (A2 : allPush s2) by (intros i; destruct (F i) as (_ & _ & -> & _); apply A).
+  assert (R2 : ranked (Bs s2)).
+  { intros y b. unfold Bs. destruct (F y) as (-> & _). destruct (Nat.eqb y r) eqn:E.
+    - apply Nat.eqb_eq in E. subst. auto.
+    - apply R. }
+  assert (S2 : subs_ok s2).
+  { split.
+    - intros i y. destruct (F i) as (_ & -> & _). intros Hy. rewrite L2.
+      destruct (B2 _ _ Hy) as [Hy'|(-> & Hi)]; [apply S0; auto|]. split; auto.
+    - intros x b. unfold Bs. destruct (F x) as (-> & _). destruct (F b) as (_ & -> & _).
+      destruct (Nat.eqb x r) eqn:E.
+      + apply Nat.eqb_eq in E. subst. intros Hb. pose proof (Hbs _ Hb). apply B4; auto; try lia.
+        intros Ho. apply S0; auto.
+      + apply Nat.eqb_neq in E. intros Hb. apply B3; auto. apply S0; auto. }
+  assert (C2 : forall x, x < length s2 -> ~ Reach (Bs s2) x r -> P_ro s2 x).
+  { intros x Lx N. unfold P_ro. destruct (F x) as (_ & _ & _ & ->).
+    assert (x <> r) by (intros ->; apply N, Reach_refl).
+    rewrite C; auto; [|lia]. symmetry. apply fresh_ro_frame; auto; try lia.
+    apply Reach_avoid with (r := r); auto.
+    intros y Hy. unfold Bs. destruct (F y) as (-> & _).
+    apply Nat.eqb_neq in Hy. rewrite Hy. auto. }
+  set (s3 := refresh_ro (length s) s2 r).
+  assert (G3 : graph_eq s2 s3) by (apply refresh_ro_graph; auto).
+  assert (P3 : PInv s3).
+  { split; [|split; [|split]].
+    - eapply graph_eq_allPush; eauto.
+    - eapply graph_eq_ranked; eauto.
+    - apply (graph_eq_subs_ok _ _ G3 S2).
+    - intros x Lx. destruct G3 as (L3 & _). rewrite <- L3 in Lx. fold (P_ro s3 x). unfold s3.
+      destruct (Reach_dec (Bs s2) r R2 x) as [Y|N].
+      + rewrite <- L2. apply refresh_ro_reaches; auto. lia.
+      + apply refresh_ro_keeps; auto. }
+  assert (K : skel_eq s3 (after_bump (upd s3 r bump) r)).
+  { eapply skel_eq_trans; [apply bump_skel|]. apply after_bump_skel.
+    eapply skel_allPush; [apply bump_skel|]. apply P3. }
+  split; [eapply PInv_skel; eauto|].
+  destruct K as ((<- & _) & _). destruct G3 as (<- & _). auto.
+Qed.
+
+(* ---- every operation of a well-formed history keeps the push invariant *)
+Lemma fst_let {A B C} (x : A * B) (g : B -> C) : fst (let '(s', a) := x in (s', g a)) = fst x.
+Proof. destruct x; reflexivity. Qed.
+
+Lemma with_lookup_fst W {A} s r (f : _ -> _ -> _ -> caches -> caches * A) :
+  exists c', fst (with_lookup W s r f) = upd (verify s r) r (fun x => set_caches x c').
+Proof.
+  unfold with_lookup. cbv zeta.
+  destruct (f (uncached_lookup W (ro_regs (verify s r) r)) (uncached_lookupAll W (ro_regs (verify s r) r))
+              (uncached_subscriptions W (ro_regs (verify s r) r)) (rs_caches (get (verify s r) r))) as [c' a].
+  exists c'. reflexivity.
+Qed.
+
+Lemma verify_push s r : rs_flavour (get s r) = Push -> verify s r = s.
+Proof. intros H. unfold verify. rewrite H. reflexivity. Qed.
+
+Lemma set_caches_skel s r c : skel_eq s (upd s r (fun x => set_caches x c)).
+Proof. apply upd_skel_eq. intros x. cbn. auto. Qed.
+
+Lemma with_lookup_push_skel W {A} s r (f : _ -> _ -> _ -> caches -> caches * A) :
+  allPush s -> skel_eq s (fst (with_lookup W s r f)).
+Proof.
+  intros Al. destruct (with_lookup_fst W s r f) as (c' & ->). rewrite verify_push by apply Al.
+  apply set_caches_skel.
+Qed.
+
+Lemma set_reg_skel s r g : skel_eq s (upd s r (fun x => mkRS g (rs_caches x) (rs_bases x) (rs_ro x) (rs_subs x)
+                                                        (rs_vro x) (rs_vgen x) (rs_flavour x))).
+Proof. apply upd_skel_eq. intros x. cbn. auto. Qed.
+
+Lemma mutate_push_skel s r f : allPush s -> skel_eq s (mutate s r f).
+Proof.
+  intros Al. unfold mutate.
+  destruct (Nat.eqb (generation (f (rs_reg (get s r)))) (generation (rs_reg (get s r)))); [apply skel_eq_refl|].
+  eapply skel_eq_trans; [apply (set_reg_skel s r (f (rs_reg (get s r))))|].
+  apply after_bump_skel. eapply skel_allPush; [apply set_reg_skel|]; auto.
+Qed.
+
+Lemma get_app_cases s x i :
+  get (s ++ [x]) i = if Nat.ltb i (length s) then get s i else if Nat.eqb i (length s) then x else dummy_rs.
+Proof.
+  destruct (Nat.ltb i (length s)) eqn:L.
+  - apply Nat.ltb_lt in L. apply get_app_l; auto.
+  - apply Nat.ltb_ge in L. destruct (Nat.eqb i (length s)) eqn:E.
+    + apply Nat.eqb_eq in E. subst. apply get_app_new.
+    + apply Nat.eqb_neq in E. apply get_oob. rewrite app_length. cbn. lia.
+Qed.
+
+Lemma app_new_ranked s fl : ranked (Bs s) -> ranked (Bs (s ++ [mkRS empty_reg empty_caches [] [] [] [] [] fl])).
+Proof.
+  intros R y b. unfold Bs. rewrite get_app_cases.
+  destruct (Nat.ltb y (length s)); [apply R|]. destruct (Nat.eqb y (length s)); cbn; tauto.
+Qed.
+
+Lemma app_new_fresh s fl x : ranked (Bs s) -> x < length s ->
+  fresh_ro (s ++ [mkRS empty_reg empty_caches [] [] [] [] [] fl]) x = fresh_ro s x.
+Proof.
+  intros R L. symmetry. apply fresh_ro_frame; auto; [|rewrite app_length; lia].
+  intros y Hy. apply (Reach_le _ R) in Hy. unfold Bs. rewrite get_app_cases.
+  replace (Nat.ltb y (length s)) with true; auto. symmetry. apply Nat.ltb_lt. lia.
+Qed.
+
+Lemma new_reg_push s bs : PInv s -> (forall b, In b bs -> b < length s) ->
+  PInv (new_reg s Push bs) /\ length (new_reg s Push bs) = S (length s).
+Proof.
+  intros (Al & R & S0 & C) Hbs. unfold new_reg.
+  set (s0 := s ++ [mkRS empty_reg empty_caches [] [] [] [] [] Push]).
+  assert (L0 : length s0 = S (length s)) by (unfold s0; rewrite app_length; cbn; lia).
+  assert (G : forall i, get s0 i = if Nat.ltb i (length s) then get s i
+                                   else if Nat.eqb i (length s) then mkRS empty_reg empty_caches [] [] [] [] [] Push
+                                        else dummy_rs) by (intros; apply get_app_cases).
+  destruct (set_bases_push s0 (length s) bs) as (P & L); auto; try lia.
+  - intros i. rewrite G. destruct (Nat.ltb i (length s)); [apply Al|].
+    destruct (Nat.eqb i (length s)); reflexivity.
+  - apply app_new_ranked; auto.
+  - split.
+    + intros r y. rewrite G, L0. destruct (Nat.ltb r (length s)).
+      * intros Hy. apply S0 in Hy. lia.
+      * destruct (Nat.eqb r (length s)); cbn; tauto.
+    + intros r b. unfold Bs. rewrite (G r). destruct (Nat.ltb r (length s)) eqn:Lr.
+      * intros Hb. apply Nat.ltb_lt in Lr. pose proof (R _ _ Hb). rewrite G.
+        replace (Nat.ltb b (length s)) with true by (symmetry; apply Nat.ltb_lt; lia). apply S0; auto.
+      * destruct (Nat.eqb r (length s)); cbn; tauto.
+  - intros x Lx N. rewrite L0 in Lx. rewrite G.
+    replace (Nat.ltb x (length s)) with true by (symmetry; apply Nat.ltb_lt; lia).
+    unfold s0. rewrite app_new_fresh; auto; try lia. apply C; lia.
+  - split; auto. lia.
+Qed.
+
+Lemma forallb_ltb l n : forallb (fun b => Nat.ltb b n) l = true -> forall b, In b l -> b < n.
+Proof. intros H b Hb. rewrite forallb_forall in H. apply Nat.ltb_lt. auto. Qed.
+
+Lemma PInv_step W call s o : PInv s -> wf_op Push (length s) o = true ->
+  PInv (fst (step W call s o)) /\ length (fst (step W call s o)) = n_after (length s) o.
+Proof.
+  intros P Wf. assert (Al : allPush s) by apply P.
+  assert (SK : forall s', skel_eq s s' -> PInv s' /\ length s' = length s).
+  { intros s' K. split; [eapply PInv_skel; eauto|]. destruct K as ((-> & _) & _); auto. }
+  destruct o; cbn [step wf_op n_after fst] in *; try rewrite fst_let;
+    try (apply SK; first [apply with_lookup_push_skel; auto | apply mutate_push_skel; auto | apply skel_eq_refl]; fail);
+    try discriminate.
+  - apply andb_true_iff in Wf. destruct Wf as (Fl & Hb). destruct fl; try discriminate.
+    apply new_reg_push; auto. apply forallb_ltb; auto.
+  - apply andb_true_iff in Wf. destruct Wf as (Lr & Hb). apply Nat.ltb_lt in Lr.
+    destruct P as (? & ? & ? & C). apply set_bases_push; auto.
+    + intros x Lx _. apply C; auto.
+    + apply forallb_ltb; auto.
+Qed.
+
+Lemma PInv_nil : PInv [].
+Proof.
+  split; [|split; [|split]].
+  - intros i. unfold get. destruct i; reflexivity.
+  - intros y b. unfold Bs, get. destruct y; cbn; tauto.
+  - split; intros r y; unfold Bs, get; destruct r; cbn; tauto.
+  - intros r H. cbn in H. lia.
+Qed.
+
+Lemma PInv_final W call : forall ops s, PInv s -> wf_hist Push (length s) ops = true ->
+  PInv (final W call s ops).
+Proof.
+  induction ops as [|o ops IH]; intros s P Wf; cbn [final fold_left]; auto.
+  cbn [wf_hist] in Wf. apply andb_true_iff in Wf. destruct Wf as (Wo & Wf).
+  destruct (PInv_step W call s o P Wo) as (P' & L'). apply IH; auto. rewrite L'; auto.
+Qed.
